@@ -777,3 +777,32 @@ Proof.
 Qed.
 
 End Recovery.
+
+(* ------------------------------------------------------------------ *)
+(* C02, receiver half: what a positive poll answer means                 *)
+
+Theorem status_positive_state : forall s now n sent s' code,
+  status_q s now n sent = (s', code) ->
+  code = CONFIRM_PASSED \/ code = CONFIRM_WAITING ->
+  cache_state s' n = ST_VALIDATED \/ cache_state s' n = ST_FINALIZED \/ cache_state s' n = ST_LOGGED.
+Proof.
+  intros s now n sent s' code E Hc. unfold status_q in E. inversion E; subst; clear E.
+  set (st := cache_state (build_cache s now sent) n) in *.
+  destruct (st =? ST_RECEIVED) eqn:A; [destruct Hc; discriminate|].
+  destruct (st =? ST_FAILED) eqn:B; [destruct Hc; discriminate|].
+  destruct (st =? ST_VALIDATED) eqn:C; [apply Z.eqb_eq in C; auto|].
+  destruct ((st =? ST_LOGGED) || (st =? ST_FINALIZED)) eqn:D.
+  - apply orb_true_iff in D as [D|D]; apply Z.eqb_eq in D; auto.
+  - destruct Hc; discriminate.
+Qed.
+
+(* a failed, unknown or merely received file is never answered positively *)
+Theorem status_negative_states : forall s now n sent,
+  let st := cache_state (build_cache s now sent) n in
+  (st = ST_FAILED -> snd (status_q s now n sent) = CONFIRM_FAILED) /\
+  (st = ST_RECEIVED -> snd (status_q s now n sent) = CONFIRM_NONE) /\
+  (st = ST_UNKNOWN -> snd (status_q s now n sent) = CONFIRM_NONE).
+Proof.
+  intros s now n sent st. unfold status_q; simpl. fold st.
+  repeat split; intros ->; reflexivity.
+Qed.
